@@ -4,7 +4,7 @@
  *                                       bounded FIFO buffer of capacity C, two condition variables,
  *                                       consumers/producers re-check their predicate in a loop
  *   condvar_rt ec W S EVENTS            event counter: S signallers x EVENTS, W waiters
- *   condvar_rt gate K ROUNDS            K waiters block on a flag; ONE broadcast must release all
+ *   condvar_rt gate K ROUNDS [u]        K waiters block on a flag; ONE broadcast must release all (u: issued after unlocking the mutex)
  *   condvar_rt trylock ROUNDS           a woken waiter, still inside its post-wait critical section,
  *                                       has another thread call p_mutex_trylock: it must fail
  *
@@ -185,7 +185,7 @@ static void *gate_waiter (void *arg) {
 	return NULL;
 }
 
-static int run_gate (int k, int rounds) {
+static int run_gate (int k, int rounds, int unlocked) {
 	pthread_t *t = calloc ((size_t) k, sizeof *t);
 	for (int i = 0; i < k; ++i)
 		if (pthread_create (&t[i], NULL, gate_waiter, (void *) (long) rounds)) fail ("pthread_create");
@@ -194,6 +194,11 @@ static int run_gate (int k, int rounds) {
 		while (gate_waiting < k * (r + 1))               /* all K are inside wait (they released the mutex atomically) */
 			CK (p_cond_variable_wait (not_full, mx));
 		gate_round = r + 1;
+		if (unlocked) {                                  /* "lock; change the predicate; unlock; broadcast": woken waiters leave wait while the broadcast runs */
+			CK (p_mutex_unlock (mx));
+			CK (p_cond_variable_broadcast (cv));
+			CK (p_mutex_lock (mx));
+		} else
 		CK (p_cond_variable_broadcast (cv));             /* exactly ONE broadcast per round */
 		while (gate_passed < k * (r + 1))
 			CK (p_cond_variable_wait (not_full, mx));
@@ -201,7 +206,7 @@ static int run_gate (int k, int rounds) {
 	}
 	for (int i = 0; i < k; ++i) pthread_join (t[i], NULL);
 	(void) gate_open;
-	printf ("ok gate waiters=%d rounds=%d\n", k, rounds);
+	printf ("ok gate waiters=%d rounds=%d%s\n", k, rounds, unlocked ? " broadcast-outside-mutex" : "");
 	free (t);
 	return 0;
 }
@@ -278,7 +283,8 @@ int main (int argc, char **argv) {
 	int rc = 2;
 	if (!strcmp (argv[1], "pc") && argc == 7) rc = run_pc (atoi (argv[2]), atoi (argv[3]), atoi (argv[4]), atoi (argv[5]), atoi (argv[6]));
 	else if (!strcmp (argv[1], "ec") && argc == 5) rc = run_ec (atoi (argv[2]), atoi (argv[3]), atoi (argv[4]));
-	else if (!strcmp (argv[1], "gate") && argc == 4) rc = run_gate (atoi (argv[2]), atoi (argv[3]));
+	else if (!strcmp (argv[1], "gate") && argc == 4) rc = run_gate (atoi (argv[2]), atoi (argv[3]), 0);
+	else if (!strcmp (argv[1], "gate") && argc == 5 && !strcmp (argv[4], "u")) rc = run_gate (atoi (argv[2]), atoi (argv[3]), 1);
 	else if (!strcmp (argv[1], "trylock") && argc == 3) rc = run_trylock (atoi (argv[2]));
 	else { printf ("usage\n"); return 2; }
 	p_cond_variable_free (cv); p_cond_variable_free (not_full); p_cond_variable_free (not_empty); p_mutex_free (mx);
